@@ -84,6 +84,10 @@ def compileLoop (chan stream prevCh prop : Nat) :
     match node with
     | .dec p v l r =>
       if p == prop then
+        -- a decision that cannot go both ways within `lo..=hi` selects one child for the range
+        if v ≥ hi then compileLoop chan stream prevCh prop fuel ((r, lo, hi) :: stack) lb ub acc
+        else if v < lo then compileLoop chan stream prevCh prop fuel ((l, lo, hi) :: stack) lb ub acc
+        else
         let nlb := min lb v
         let nub := max ub v
         if (nub - nlb).toNat > 1024 - 2 then
